@@ -1,7 +1,12 @@
 #!/usr/bin/env python3
 """Confirm a seeded change and run a check against it.
 
-usage: seedcheck.py <dir with patch.diff demo.py meta.json> <Cxx> [--keep-as NAME] [--no-tests]
+usage: seedcheck.py <dir with patch.diff demo.py meta.json> <Cxx> [--keep-as NAME] [--no-tests] [--worktree]
+
+With --worktree nothing is applied to /repo itself: a scratch git worktree of /repo's HEAD is made under
+/var/tmp, the change is applied there and the check is run with SUDS_REPO pointing at it (for use while
+other work depends on /repo staying unchanged); the worktree is removed afterwards and the evidence file
+of the property is restored.
 
 Steps (all against /repo, restored afterwards with `git checkout -- .`):
   1. demo on the unchanged tree must exit 0
@@ -28,7 +33,16 @@ def sh(cmd, **kw):
 
 
 def main():
+    global REPO
     d, pid = sys.argv[1], sys.argv[2]
+    wt = None
+    if "--worktree" in sys.argv:
+        wt = "/var/tmp/seedwt-%s-%d" % (pid, os.getpid())
+        rc, out = sh("git -C /repo worktree add --detach %s HEAD" % wt)
+        if rc != 0:
+            print(out)
+            return 2
+        REPO = wt
     keep = None
     if "--keep-as" in sys.argv:
         keep = sys.argv[sys.argv.index("--keep-as") + 1]
@@ -55,7 +69,7 @@ def main():
         record["demo_changed_exit"] = rc1
         record["demo_changed_output"] = out1[-600:]
         t0 = time.time()
-        rcc, outc = sh("cd %s && ./check %s" % (VERIF, pid))
+        rcc, outc = sh("cd %s && SUDS_REPO=%s ./check %s" % (VERIF, REPO, pid))
         record["check_exit"] = rcc
         record["check_wall_s"] = round(time.time() - t0, 1)
         lines = [l for l in outc.splitlines() if l.startswith("VIOLATION") or l.startswith("  (")]
@@ -63,6 +77,10 @@ def main():
         record["detected"] = rcc == 1 and any(("property=%s " % pid) in l for l in lines)
     finally:
         sh("git -C %s checkout -- ." % REPO)
+        if wt:
+            sh("git -C /repo worktree remove --force %s" % wt)
+            sh("git -C %s checkout -- evidence/%s.json" % (VERIF, pid))
+            record["mode"] = "scratch worktree of /repo HEAD, check run with SUDS_REPO=<worktree>"
     ok = record.get("demo_unchanged_exit") == 0 and record.get("demo_changed_exit", 0) != 0 and \
         record.get("tests_pass", True)
     record["confirmed"] = ok
